@@ -62,4 +62,10 @@ var specs = map[string]propSpec{
 		Rule: "rapid generates a world (as for C04) and 45-190 query descriptors in which a few queries are repeated many times so that goroutines meet on the same blocks and file bytes; the queries run once sequentially (reference results) and then on 4-32 goroutines pulling from the same list, sharing one PathReader / PathContext / schema and either one Decoder or one Decoder per goroutine. The test binary is built with -race (GORACE=halt_on_error=1): any race report is a violation (the report plus the running case is the replay artefact); every concurrent result must equal the sequential one (canonical rendering) and the deep snapshot of all caller-supplied data must be unchanged; evaluations = results compared. Non-trivial = schema with dependent bodies / extensions and >= 4 goroutines; distinct = SHA-1 of the case JSON. The harness does not own the scheduler: only interleavings that actually happen are observed.",
 		Assumptions: append([]string{"stress exploration under the Go race detector: precise for the executions observed, silent about the others"}, commonAssumptions...),
 	},
+	"C06": {
+		Test: "TestC06", Quick: 300, Thorough: 2000, Shards: 16,
+		QuickTimeout: 10 * time.Minute, ThoroughTimeout: 40 * time.Minute,
+		Rule: "rapid generates a world (one path, 1-2 files, layout stress, half-typed values, 0-2 edits; 25% of cases with candidate populations of 95-130 attributes / blocks / dependent-body labels) and runs completion with and without required-field prefilling at every character boundary. Validity predicate per candidate: edit is for the requested file, range well formed, starts at or before the cursor, reaches the cursor up to blanks; plain text free of tab-stop syntax; snippet tab stops (stop 0 aside) consecutive and used once. Per list: at most 100 entries; a list marked complete whose attribute has a registered, runnable hook is a violation; a list at the limit marked complete is probed metamorphically (type one more character from [a-z0-9_]: every candidate offered then must already be in the complete list). evaluations = candidates checked. Non-trivial = some non-empty list was produced with a typed prefix or a list reached the limit; distinct = SHA-1 of the case JSON.",
+		Assumptions: append([]string{"hook-provided insert text is caller content and is not snippet-checked", "ranges inside top-level items whose parser AST is inconsistent are attributed upstream (counted)"}, commonAssumptions...),
+	},
 }
